@@ -109,6 +109,36 @@ theorem encodeTime_is_source (ps : List (Value N)) : Time.encodeTime ps = SrcTim
         have hg' : (NumX.ge0 h && (NumX.ge0 m && (NumX.ge0 sx && NumX.ge0 milli))) = false := by simpa [Bool.and_assoc] using hg1
         simp only [hg1, hg', Bool.false_eq_true, if_false]; rfl
 
+theorem incMonth_is_source (ps : List (Value N)) : Time.incMonth ps = SrcTime.inc_month ps := by
+  unfold Time.incMonth SrcTime.inc_month
+  have hdn : Stdlib.defaultNumber ps 1 (NumOps.ofBool true : N) = SrcStdlib.default_number ps 1 (NumOps.ofBool true : N) := by
+    unfold Stdlib.defaultNumber SrcStdlib.default_number
+    cases ps[1]? with
+    | none => rfl
+    | some v => cases v <;> rfl
+  rw [hdn]
+  cases SrcStdlib.default_number ps 1 (NumOps.ofBool true : N) with
+  | error e => rfl
+  | ok inc =>
+    simp only [bind, Except.bind]
+    rcases ps with _ | ⟨v, r⟩
+    · rfl
+    · simp only [decode_is_source]
+      cases SrcTime.try_from v with
+      | error e => rfl
+      | ok t =>
+        simp only []
+        by_cases hg : NumX.gt0 inc = true
+        · simp only [hg, if_true]
+          cases addMonths t ((Int.natAbs (NumX.toI32 inc) : Nat) : Int) <;> rfl
+        · have hg' : NumX.gt0 inc = false := by simpa using hg
+          simp only [hg', Bool.false_eq_true, if_false]
+          by_cases hl : NumX.lt0 inc = true
+          · simp only [hl, if_true]
+            cases addMonths t (-((Int.natAbs (NumX.toI32 inc) : Nat) : Int)) <;> rfl
+          · have hl' : NumX.lt0 inc = false := by simpa using hl
+            simp only [hl', Bool.false_eq_true, if_false]; rfl
+
 /-- C16's central theorem restated about the functions translated from the source: for every valid date of years 1–9999 and every millisecond of the
     day, converting the date-time to a number (`impl From<NaiveDateTime> for Value`) and back (`impl TryFrom<&Value> for NaiveDateTime`) is the identity -/
 theorem decode_encode_source [LawfulTimeNum N] (y : Int) (m d ms : Nat) (hv : validDate y m d = true) (hy1 : 1 ≤ y) (hy2 : y ≤ 9999)
